@@ -191,7 +191,7 @@ func (c *control) readDir() {
 			}
 			c.pos += size
 			params = append(params, slip.Character(r))
-		case '-', '0', '1', '2', '3', '4', '5', '6', '7', '8', '9':
+		case '-', '+', '0', '1', '2', '3', '4', '5', '6', '7', '8', '9':
 			c.pos--
 			p := c.readParam()
 			if n, err := strconv.ParseInt(string(p), 10, 64); err == nil {
